@@ -43,20 +43,22 @@ other_fail=$(grep "^--- FAIL" "$WT/tests.log" | grep -v "TestKetamaHashAlg_Hash"
 run_demo; seeded_rc=$?
 tail -5 "$WT/demo.log" > "$OUT/demo_with_change.log"
 git -C /repo worktree remove --force "$R"; rm -rf "$WT"
-# checks against /repo with the change applied
+# checks against a scratch copy of /repo's working tree with the change applied (removed afterwards; /repo itself
+# is not touched, so this can run while other checks read /repo)
 RES="$OUT/check_results.txt"; : > "$RES"
-if git -C /repo diff --quiet; then
-  git -C /repo apply "$OUT/patch.diff"
+SC=$(mktemp -d /var/tmp/confirm-seed.XXXXXX)
+rsync -a --exclude .git /repo/ "$SC"/
+if (cd "$SC" && patch -p1 -s --no-backup-if-mismatch < "$OUT/patch.diff" >/dev/null 2>&1); then
   for P in "$@"; do
-    (cd /verif && ./bin/govc check -prop "$P" -no-evidence 2>&1 | grep -E "FAIL|VIOLATION|BROKEN|^govc" | cut -c1-240 | sed "s/^/[$P] /") >> "$RES"
+    (cd /verif && ./bin/govc check -prop "$P" -repo "$SC" -no-evidence 2>&1 | grep -E "FAIL|VIOLATION|BROKEN|^govc" | cut -c1-240 | sed "s#$SC#/repo#g" | sed "s/^/[$P] /") >> "$RES"
     if [ "$P" = "C16" ]; then
-      (cd /verif && CORPUS_NO_EVIDENCE=1 tools/corpus_check.sh "$P" 2>&1 | grep -E "FAIL|VIOLATION|BROKEN|^corpus:" | cut -c1-240 | sed "s/^/[$P] /") >> "$RES"
+      (cd /verif && VERIF_REPO="$SC" CORPUS_NO_EVIDENCE=1 tools/corpus_check.sh "$P" 2>&1 | grep -E "FAIL|VIOLATION|BROKEN|^corpus:" | cut -c1-240 | sed "s/^/[$P] /") >> "$RES"
     fi
   done
-  git -C /repo checkout -- .
 else
-  echo "skipped: /repo dirty" >> "$RES"
+  echo "skipped: patch does not apply to the working tree" >> "$RES"
 fi
+rm -rf "$SC"
 caught=$(grep -c "VIOLATION" "$RES")
 python3 - "$OUT" "$ID" "$clean_rc" "$build_rc" "$other_fail" "$seeded_rc" "$caught" "$*" <<'PY'
 import json,sys,os
